@@ -21,7 +21,7 @@ import sys
 
 REPO = os.environ.get("VERIF_REPO", "/repo")
 VERIF = os.path.dirname(os.path.dirname(os.path.abspath(__file__)))
-OUTDIR = os.path.join(VERIF, "lean", "ViaGen")
+OUTDIR = os.environ.get("VIA_GEN_OUT") or os.path.join(VERIF, "lean", "ViaGen")
 INC = os.path.join(REPO, "include", "via")
 
 
@@ -216,6 +216,21 @@ class P:
             if self.accept("else"):
                 el = self.stmt()
             return ("if", c, th, el)
+        if v == "while":
+            self.next()
+            self.expect("(")
+            c = self.expr()
+            self.expect(")")
+            return ("while", c, self.stmt())
+        if v == "char" and self.peek(1)[0] == "id" and self.peek(2)[1] == "(":
+            # char c(<expr>);
+            self.next()
+            name = self.next()[1]
+            self.expect("(")
+            e = self.expr()
+            self.expect(")")
+            self.expect(";")
+            return ("decl", name, e)
         if v == "switch":
             self.next()
             self.expect("(")
@@ -314,6 +329,8 @@ class P:
             return ("not", self.unary())
         if self.accept("++"):
             return ("preinc", self.unary())
+        if self.accept("*"):
+            return ("deref", self.unary())
         return self.postfix()
 
     def postfix(self):
@@ -353,6 +370,8 @@ class P:
             elif self.accept("."):
                 kk, name = self.next()
                 e = ("member", e, name)
+            elif self.accept("++"):
+                e = ("postinc", e)
             else:
                 return e
 
@@ -362,7 +381,7 @@ class P:
 
 def may_exit(st):
     k = st[0]
-    if k in ("return", "break", "fallthrough", "switch"):
+    if k in ("return", "break", "fallthrough", "switch", "while"):
         return True
     if k == "block":
         return any(may_exit(s) for s in st[1])
@@ -377,6 +396,7 @@ class Gen:
         self.enum = spec["enum"]
         self.enum_consts = enum_consts
         self.locals = {}
+        self.it = None          # Lean term for the remaining input (`iter` .. `end`) where the code may look at it
 
     # ---- expressions: returns (prelude lines, lean text, type)
     def ex(self, e):
@@ -415,6 +435,23 @@ class Gen:
                 raise Unsupported("side effect on the right of a short-circuit operator")
             op = "&&" if k == "and" else "||"
             return p1, "(%s %s %s)" % (self.as_bool(t1, ty1), op, self.as_bool(t2, ty2)), "bool"
+        if k == "cmp" and e[2] in (("id", "iter"), ("id", "end")) and e[3] in (("id", "iter"), ("id", "end")) and e[2] != e[3]:
+            if self.it is None or e[1] not in ("==", "!="):
+                raise Unsupported("iterator comparison here")
+            return [], ("(!%s.isEmpty)" if e[1] == "!=" else "%s.isEmpty") % self.it, "bool"
+        if k == "deref":
+            if e[1] != ("id", "iter") or self.it is None:
+                raise Unsupported("dereference of something other than iter")
+            # `*iter`: guarded by `iter != end` in the code; the translation reads 0 past the end
+            return [], "(%s.headD 0)" % self.it, "byte"
+        if k == "assign":
+            lines = self.effect(("expr", e))
+            f, fty = self.spec["members"][e[2][1]]
+            return lines, "s." + f, fty
+        if k == "call" and e[1] == ("id", "parse_char"):
+            if e[2] != [("id", "c")]:
+                raise Unsupported("parse_char called with something other than c")
+            return ["let r := %s.parseChar cfg s c" % self.spec["ns"], "let s := r.1"], "r.2", "bool"
         if k == "cmp":
             op = e[1]
             p1, t1, ty1 = self.ex(e[2])
@@ -555,6 +592,40 @@ class Gen:
             return self.seq(p, "(if %s then %s else %s)" % (self.cond(t, ty), th, el))
         raise Unsupported("statement %r in exit position" % (k,))
 
+    def comp3(self, stmts, k_end, it):
+        """like comp, for code whose result is (state, remaining input, returned bool); `it` = the remaining input"""
+        saved = self.it
+        self.it = it
+        try:
+            return self._comp3(stmts, k_end, it)
+        finally:
+            self.it = saved
+
+    def _comp3(self, stmts, k_end, it):
+        if not stmts:
+            return k_end
+        st, rest = stmts[0], stmts[1:]
+        k = st[0]
+        if not may_exit(st):
+            lines = self.effect(st)
+            tail = self._comp3(rest, k_end, it)
+            if tail is None:
+                return None
+            return self.seq(lines, tail) if lines else tail
+        if k == "return":
+            p, t, ty = self.ex(st[1])
+            return self.seq(p, "(s, %s, %s)" % (it, self.as_bool(t, ty)))
+        if k == "block":
+            return self._comp3(st[1] + rest, k_end, it)
+        if k == "if":
+            p, t, ty = self.ex(st[1])
+            th = self._comp3([st[2]] + rest, k_end, it)
+            el = self._comp3(([st[3]] if st[3] is not None else []) + rest, k_end, it)
+            if th is None or el is None:
+                return None
+            return self.seq(p, "(if %s then %s else %s)" % (self.cond(t, ty), th, el))
+        raise Unsupported("statement %r in a parse function" % (k,))
+
     def function(self, body_stmts):
         """body: prelude statements, one switch on state_, then `return <bool>;`"""
         ns, S = self.spec["ns"], self.spec["struct"]
@@ -612,6 +683,50 @@ class Gen:
         return "\n".join(out)
 
 
+def gen_parse_function(g, body_stmts):
+    """`bool parse(ForwardIterator& iter, ForwardIterator end)` of a line parser:
+         <statements that may peek at *iter>   while ((iter != end) && COND) { char c(*iter++); BODY }   <statements> return e;
+       becomes a structurally recursive function over the remaining input; result = (state, remaining input, returned bool)"""
+    ns, S = g.spec["ns"], g.spec["struct"]
+    idx = [i for i, st in enumerate(body_stmts) if st[0] == "while"]
+    if len(idx) != 1:
+        raise Unsupported("%s::parse: expected exactly one while loop" % g.spec["cls"])
+    pre, loop, post = body_stmts[:idx[0]], body_stmts[idx[0]], body_stmts[idx[0] + 1:]
+    cond, body = loop[1], loop[2]
+    if cond[0] != "and" or cond[1] != ("cmp", "!=", ("id", "iter"), ("id", "end")):
+        raise Unsupported("loop condition is not `(iter != end) && ...`")
+    body = body[1] if body[0] == "block" else [body]
+    if not body or body[0][0] != "decl" or body[0][1] != "c" or body[0][2] != ("deref", ("postinc", ("id", "iter"))):
+        raise Unsupported("loop body does not start with `char c(*iter++)`")
+
+    after_nil = g.comp3(post, None, "[]")
+    after_cons = g.comp3(post, None, "(c0 :: it)")
+    if after_nil is None or after_cons is None:
+        raise Unsupported("parse can fall off its end")
+    g.it = None
+    p, t, ty = g.ex(cond[2])
+    if p:
+        raise Unsupported("side effect in the loop condition")
+    g.it = "it"
+    body_term = g.comp3(body[1:], "%s.parseLoop cfg s it" % ns, "it")
+    loop_def = ("def %s.parseLoop (cfg : Cfg) (s : %s) : Bytes → %s × Bytes × Bool\n"
+                "  | [] => %s\n"
+                "  | c0 :: it =>\n    if %s then\n      let c := c0\n      %s\n    else %s\n" % (
+                    ns, S, S, after_nil, g.cond(t, ty), body_term, after_cons))
+    g.it = "buf"
+    pre_lines = []
+    for st in pre:
+        if may_exit(st):
+            raise Unsupported("exit before the loop")
+        pre_lines += g.effect(st)
+    main = "def %s.parse (cfg : Cfg) (s : %s) (buf : Bytes) : %s × Bytes × Bool :=\n" % (ns, S, S)
+    for l in pre_lines:
+        main += "  %s\n" % l
+    main += "  %s.parseLoop cfg s buf\n" % ns
+    g.it = None
+    return loop_def + "\n" + main
+
+
 def enum_members(text, name):
     m = re.search(r"enum\s+class\s+%s\s*\{(.*?)\}" % name, text, re.S)
     if not m:
@@ -649,6 +764,13 @@ def translate(spec):
                  "  refine ⟨by decide, fun x => ?_⟩\n  cases x <;> decide\n" % (
                      spec["ns"], ", ".join("%s.%s" % (T, ctor_name(c)) for c in consts), T, len(consts), T, len(consts)))
     parts.append(g.function(st[1]))
+    body2 = function_body(text, spec["cls"], r"\bbool\s+parse\s*\(\s*ForwardIterator\s*&\s*iter\s*,\s*ForwardIterator\s+end\s*\)")
+    p2 = P(lex(body2))
+    st2 = p2.stmt()
+    if p2.peek()[0] != "eof" or st2[0] != "block":
+        raise Unsupported("trailing tokens after the body of %s::parse" % spec["cls"])
+    parts.append("/-! ### %s::parse -/\n" % spec["cls"])
+    parts.append(gen_parse_function(Gen(spec, consts), st2[1]))
     parts.append("end Via\n")
     return "\n".join(parts)
 
@@ -663,7 +785,7 @@ def main():
         except (Unsupported, OSError, ValueError, IndexError) as e:
             if os.path.exists(out):
                 os.remove(out)
-            sys.stderr.write("cxx2lean: cannot translate %s::parse_char: %s\n" % (spec["cls"], e))
+            sys.stderr.write("cxx2lean: cannot translate %s (parse_char / parse): %s\n" % (spec["cls"], e))
             failed += 1
             continue
         old = open(out).read() if os.path.exists(out) else None
